@@ -32,6 +32,7 @@ class Prop:
     trusted_base: list = []
     replay_tol = 1e-5
     replay_random_tries = 12
+    replay_budget = 14
     task_timeout = {'quick': 240, 'thorough': 1500}
     engine_opts: dict = {}
 
@@ -316,7 +317,7 @@ def run_check(pid: str, tier: str, seed: int, nproc: int | None = None,
         for k in list(groups):
             if groups[k]:
                 ordered.append(groups[k].pop(0))
-    budget = 14
+    budget = getattr(prop, 'replay_budget', 14)
     for cfg, f in ordered:
         key = (cfg.get('harness'), f['name'], cfg_key({k: v for k, v in cfg.items() if not k.startswith('_')}))
         if key in seen:
